@@ -48,6 +48,10 @@ def gen_table(rnd, alphabet, plain):
                 row.append(row[-1])       # runs of equal cells
             else:
                 row.append(rnd.choice(alphabet))
+        if rnd.random() < 0.25:
+            row += [""] * rnd.randint(1, 3)      # rows ending in a run of empty cells
+        elif rnd.random() < 0.1:
+            row = [""] * rnd.randint(1, 4)       # rows made of empty cells only
         rows.append(row)
     if plain:
         rows = [[c for c in r] for r in rows]
@@ -61,7 +65,7 @@ def run(ctx):
                 "features {column runs, row runs, white-space elements, spans, paragraphs} and content.xml serialised as UTF-8 / UTF-16 with BOM / ISO-8859-1 with "
                 "character references; archives truncated at every 64th byte, content.xml cut at tag boundaries, non-zip files, missing content.xml, bad repeat "
                 "counts; distinct = distinct (document, features, charset, sheet); non-trivial = document has at least one cell")
-    n = 120 if ctx.tier == "quick" else 1500
+    n = 300 if ctx.tier == "quick" else 3000
     plain_alpha = ["", "a", "b", "x y", "<&>", "\"q'", "é", "€uro", "日本", "1", "0.5", "A"]
     ws_alpha = plain_alpha + ["a  b", "  lead", "trail  ", "t\tab", "l1\nl2", "a \n b", "\t", "   "]
     tmp = tempfile.mkdtemp(prefix="c15-")
@@ -82,7 +86,7 @@ def run(ctx):
             charset = rnd.choice(["utf-8", "utf-8", "utf-16", "iso-8859-1"])
             cases.append((f, doc, sheet, charset))
         # every single feature on its own on one fixed document (so each known gap is always exercised)
-        fixed_doc = [[["a", "a", "a", "b", ""], ["a", "a", "a", "b", ""], ["x", "", "", "y"]], [["s2"]]]
+        fixed_doc = [[["a", "a", "a", "b", ""], ["a", "a", "a", "b", ""], ["x", "", "", "y"], ["1", "x", "", ""], ["", "", ""], ["z", "z"]], [["s2"]]]
         for k, name in enumerate(FEATURES):
             f = {n_: (n_ == name) for n_ in FEATURES}
             cases.append((f, fixed_doc, 1, "utf-8"))
